@@ -128,11 +128,18 @@ class C20(Lab):
         k = case["k"]
         if k == "table":
             i = case["i"]
-            got = self.mod._crc7_table[i] if hasattr(self.mod, "_crc7_table") else self.call(bytes([i]))
-            got2 = self.call(bytes([i]))
+            # the entry is observed through the public function (from a zero checksum byte i selects entry i);
+            # how the implementation stores its table is its own business
+            got = self.call(bytes([i]))
             want = bitserial(bytes([i]))
-            if got != want or got2 != want:
-                raise Violation("C20/table", f"entry {i}: table {got}, crc7 {got2}, bit-serial {want}")
+            if got != want:
+                raise Violation("C20/table", f"entry {i}: crc7(bytes([{i}])) = {got}, bit-serial {want}")
+            # and from every other running checksum that selects the same entry: crc7(bytes([a, a2])) with table index i
+            for a in (1, 0x80, 0xFF):
+                c = bitserial(bytes([a]))
+                m = bytes([a, i ^ c])
+                if self.call(m) != bitserial(m):
+                    raise Violation("C20/table", f"entry {i} reached from checksum {c}: crc7({m.hex()}) = {self.call(m)}, bit-serial {bitserial(m)}")
             return {"nontrivial": False, "classes": ["table"]}
         if k == "msg":
             d = bytes.fromhex(case["data"])
